@@ -123,9 +123,13 @@ def provenance(entry, sv):
 
 
 def frame_check(chk):
-    """anon_var_count is assigned only in HyASTCompiler.__init__ and get_anon_var (syntactic, all of hy/)."""
+    """The state get_anon_var counts in (whatever attribute(s) its body names) is assigned only in constructors and in
+    get_anon_var itself (syntactic, all of hy/): nothing else can reset or rewind the numbering."""
     import glob
     import os
+    comp_src = ast.parse(open(os.path.join(sx.REPO, "hy", "compiler.py")).read())
+    gav = [f for f in ast.walk(comp_src) if isinstance(f, ast.FunctionDef) and f.name == "get_anon_var"]
+    attrs = {n.attr for f in gav for n in ast.walk(f) if isinstance(n, ast.Attribute)} - {"get_anon_var"}
     sites = []
     for p in sorted(glob.glob(os.path.join(sx.REPO, "hy", "**", "*.py"), recursive=True)):
         tree = ast.parse(open(p).read())
@@ -137,32 +141,76 @@ def frame_check(chk):
                         tg = n.targets
                     elif isinstance(n, (ast.AugAssign, ast.AnnAssign)):
                         tg = [n.target]
+                    elif isinstance(n, ast.Delete):
+                        tg = n.targets
                     for t in tg:
-                        if isinstance(t, ast.Attribute) and t.attr == "anon_var_count":
+                        if isinstance(t, ast.Attribute) and t.attr in attrs:
                             sites.append(f"{os.path.relpath(p, sx.REPO)}::{fn.name}")
     for p in sorted(glob.glob(os.path.join(sx.REPO, "hy", "**", "*.hy"), recursive=True)):
-        if "anon_var_count" in open(p).read() or "anon-var-count" in open(p).read():
+        txt = open(p).read()
+        if any(a in txt or a.replace("_", "-") in txt for a in attrs if len(a) > 4):
             sites.append(os.path.relpath(p, sx.REPO))
-    ok = set(sites) <= {"hy/compiler.py::__init__", "hy/compiler.py::get_anon_var"} and len(sites) >= 2
-    chk.ob("frame/anon_var_count assigned only in __init__ and get_anon_var", ok, "structural", "proved", detail=str(sites))
+    ok = len(gav) == 1 and all(x.endswith("::__init__") or x.endswith("::get_anon_var") for x in sites)
+    chk.ob("frame/the counter state of get_anon_var is assigned only in constructors and get_anon_var", ok, "structural", "proved",
+           detail=f"state attributes {sorted(attrs)}; assignment sites {sites}")
+
+
+def _replay_unit_names():
+    """Through the whole pipeline: a nested function that binds, with a let of its own, the name of a let-bound variable of the enclosing scope it also reads."""
+    import types
+    import hy
+    src = '(let [x "outer"] (defn inner [] [(let [x "inner"] x) x]) [(inner) x])'
+    try:
+        got = hy.eval(hy.read(src), module=types.ModuleType("hv_c12u"))
+    except Exception as e:  # noqa: BLE001
+        got = f"{type(e).__name__}: {e}"[:200]
+    return {"confirmed": got != [["inner", "outer"], "outer"], "input": src, "observed": repr(got), "expected": "[['inner', 'outer'], 'outer']"}
 
 
 def anon_var_contract(chk):
-    """Contract of the real get_anon_var: result == "_hy_" + base + ("_" + name if name) + "_" + str(old+1); counter+1."""
+    """Contract of the real get_anon_var, stated over what it returns (not over how it counts): every result is
+    "_hy_" + base + ("_" + name if name) + "_" + digits, and within one compilation unit (one compiler object) no two calls - in
+    whichever scopes they are made - return the same name."""
+    import hy.scoping as hs
+    import itertools
+    import re
     comp = sx.new_compiler()
     bad = []
-    seen = set()
-    import itertools
-    for base, name in itertools.product(["anon", "let", "exc", "x_1", ""], ["", "x", "_hy_anon_1", "a_b", "1"]):
-        old = comp.anon_var_count
-        r = comp.get_anon_var(base, name) if (base, name) != ("anon", "") else comp.get_anon_var()
-        want = "_hy_" + base + (("_" + name) if name else "") + "_" + str(old + 1)
-        if r != want or comp.anon_var_count != old + 1 or r in seen:
-            bad.append((base, name, r, want))
-        seen.add(r)
-        chk.case(("anon", base, name))
-    chk.ob("contract/get_anon_var: prefix, counter suffix, counter+1, fresh", not bad, "structural", "bounded",
-           detail=str(bad) if bad else "run-time contract on the real method over 25 (base, name) pairs; unbounded proof: hv.pyvc K1 (C12 thorough)")
+    seen = {}
+    pairs = list(itertools.product(["anon", "let", "exc", "x_1", ""], ["", "x", "_hy_anon_1", "a_b", "1"]))
+
+    def issue(where):
+        for base, name in pairs:
+            r = comp.get_anon_var(base, name) if (base, name) != ("anon", "") else comp.get_anon_var()
+            want = "_hy_" + base + (("_" + name) if name else "") + "_"
+            if not (isinstance(r, str) and r.startswith(want) and re.fullmatch(r"[0-9]+", r[len(want):])):
+                bad.append((where, base, name, r, "is not " + want + "<digits>"))
+            elif r in seen:
+                bad.append((where, base, name, r, "was already issued in " + seen[r]))
+            seen.setdefault(r, where)
+            chk.case(("anon", where, base, name))
+    with comp.scope:
+        issue("the module scope")
+        f1 = comp.scope.create(hs.ScopeFn)
+        with f1:
+            issue("a function scope")
+            l1 = comp.scope.create(hs.ScopeLet)
+            with l1:
+                issue("a let inside the function")
+                f2 = comp.scope.create(hs.ScopeFn)
+                with f2:
+                    issue("a function nested in the function")
+            g1 = comp.scope.create(hs.ScopeGen)
+            with g1:
+                issue("a comprehension scope inside the function")
+        f3 = comp.scope.create(hs.ScopeFn)
+        with f3:
+            issue("a second function scope")
+        issue("the module scope again")
+    chk.ob("contract/get_anon_var: reserved prefix, numeric suffix, and no name issued twice in one compilation unit whatever the scope",
+           not bad and len(seen) == 7 * len(pairs), "structural", "bounded",
+           detail=str(bad[:3]) if bad else f"run-time contract on the real method: {len(seen)} calls in 7 scopes of one compiler; unbounded proof of "
+           "the counter discipline: hv.pyvc K1 (C12 thorough)", replay=None if not bad else _replay_unit_names())
 
 
 def _replay_let_names():
